@@ -117,6 +117,13 @@ def py_expr(t, cur="t") -> str:
         if len(t) > 2 and t[2] is not None:
             s += f".otherwise({py_expr(t[2])})"
         return s
+    if h == "case_ext":
+        s = py_expr(t[1])
+        for c, v in t[2]:
+            s += f".when({py_expr(c)}).then({py_expr(v)})"
+        if len(t) > 3 and t[3] is not None:
+            s += f".otherwise({py_expr(t[3])})"
+        return s
     if h == "map":
         items = []
         for key, val in t[2]:
